@@ -221,7 +221,10 @@ def rule_K4(repo: Repo) -> RuleResult:
                             and base_name(s.target) == arr:
                         writes.append(s)
                     elif isinstance(s, ast.Assign):
+                        flat = []
                         for t in s.targets:
+                            flat.extend(t.elts if isinstance(t, (ast.Tuple, ast.List)) else [t])
+                        for t in flat:
                             if isinstance(t, ast.Subscript) and base_name(t) == arr:
                                 writes.append(s)
             counting = [w for w in writes if not _is_literal_store(w)]
@@ -294,22 +297,62 @@ def _mask_aliases(func: Func, mask_names: Set[str]) -> Dict[str, str]:
     return {k: v for k, v in out.items() if counts.get(k, 0) == 1}
 
 
-def _selection_of_path(path: SymPath, mask_names, aliases) -> str:
-    """'selected' | 'unselected' | 'unknown' from the branch decisions of a path."""
-    status = "unknown"
+def _eval3(test: ast.expr, M: bool, B: bool, mask_names, aliases) -> Optional[bool]:
+    """Kleene evaluation of a branch test under 'mask is not None' = M and 'mask[row]' = B;
+    every other sub-expression is unknown (None)."""
+    t = test
+    if isinstance(t, ast.Constant) and isinstance(t.value, bool):
+        return t.value
+    if isinstance(t, ast.Name):
+        a = aliases.get(t.id)
+        if a == "masked":
+            return M
+        if a == "unmasked":
+            return not M
+        return None
+    if isinstance(t, ast.Compare) and len(t.ops) == 1 and isinstance(t.left, ast.Name) and t.left.id in mask_names \
+            and isinstance(t.comparators[0], ast.Constant) and t.comparators[0].value is None:
+        if isinstance(t.ops[0], ast.IsNot):
+            return M
+        if isinstance(t.ops[0], ast.Is):
+            return not M
+        return None
+    if isinstance(t, ast.Subscript) and base_name(t) in mask_names:
+        return B if M else None
+    if isinstance(t, ast.UnaryOp) and isinstance(t.op, ast.Not):
+        v = _eval3(t.operand, M, B, mask_names, aliases)
+        return None if v is None else (not v)
+    if isinstance(t, ast.BoolOp):
+        vals = [_eval3(v, M, B, mask_names, aliases) for v in t.values]
+        if isinstance(t.op, ast.And):
+            if any(v is False for v in vals):
+                return False
+            return True if all(v is True for v in vals) else None
+        if any(v is True for v in vals):
+            return True
+        return False if all(v is False for v in vals) else None
+    return None
+
+
+def _feasible(path: SymPath, M: bool, B: bool, mask_names, aliases) -> bool:
     for test, pol in path.conds:
-        for leaf, lpol in _leaves(test, pol):
-            cls = _mask_test_polarity(leaf, mask_names, aliases)
-            if cls is None:
-                continue
-            if lpol is None:
-                continue
-            eff = cls if lpol else ("selected" if cls == "unselected" else "unselected")
-            if eff == "selected":
-                status = "selected"
-            elif eff == "unselected" and status != "selected":
-                status = "unselected"
-    return status
+        v = _eval3(test, M, B, mask_names, aliases)
+        if v is not None and v != pol:
+            return False
+    return True
+
+
+def _selection_of_path(path: SymPath, mask_names, aliases) -> str:
+    """'selected' | 'unselected' | 'unknown' from the branch decisions of a path: the row is unselected iff a
+    mask is given and mask[row] is false.  The decisions are evaluated in three-valued logic under each of the
+    valuations of (mask given, mask[row]); 'selected' = the unselected valuation contradicts a decision."""
+    unsel = _feasible(path, True, False, mask_names, aliases)
+    sel = _feasible(path, True, True, mask_names, aliases) or _feasible(path, False, False, mask_names, aliases)
+    if not unsel:
+        return "selected"
+    if not sel:
+        return "unselected"
+    return "unknown"
 
 
 def _leaves(test: ast.expr, pol: bool):
